@@ -922,6 +922,9 @@ func genSpec(seed uint64, worker, run int, tier string) (*Spec, *Rng, faultSet) 
 	case k >= 21 && k < 25:
 		g.duel(s)
 	}
+	if len(s.Tasks) > verifsim.MaxTasks {
+		s.Tasks = s.Tasks[:verifsim.MaxTasks]
+	}
 	s.Order = r.Perm(len(s.Tasks))
 	return s, r, fs
 }
@@ -933,6 +936,9 @@ func (g *gen) crowd(s *Spec, hot []int, fs faultSet) {
 	nt := r.Range(7, 12)
 	if v, ok := g.nearConstant(2, 15); ok && r.Chance(0.4) {
 		nt = v + 1 // one more caller than some small constant of the library
+	}
+	if nt > verifsim.MaxTasks {
+		nt = verifsim.MaxTasks
 	}
 	h := hot[0]
 	fam := [][]string{mObjArg, mSpatialV, mSpatialG, mSerial, mCallback, nil}[r.Intn(6)]
